@@ -42,6 +42,11 @@ type SpecCfg struct {
 	// UniqueParamNames: parameter names of one operation are distinct across
 	// locations, ignoring case and punctuation (reflection harnesses match on that key).
 	UniqueParamNames bool
+	AllowEmptyPct    int // chance of allowEmptyValue on query/formData parameters (default 10)
+	// FocusParams: the first parameter of every operation is drawn uniformly from the
+	// catalogue {location} x {type} x {required, optional, +allowEmptyValue, +default},
+	// half of the time without any validation keyword.
+	FocusParams bool
 }
 
 var allMethods = []string{"get", "put", "post", "delete", "options", "head", "patch"}
@@ -392,6 +397,9 @@ func Spec(t *rapid.T, c *SpecCfg) J {
 				mode = rapid.SampledFrom(opts).Draw(t, ol+"_bodymode")
 			}
 			np := rapid.IntRange(0, c.MaxParams).Draw(t, ol+"_nparams")
+			if c.FocusParams && np == 0 {
+				np = 1
+			}
 			for k := 0; k < np; k++ {
 				kl := fmt.Sprintf("%s_p%d", ol, k)
 				ins := []string{"query", "query", "header"}
@@ -410,11 +418,56 @@ func Spec(t *rapid.T, c *SpecCfg) J {
 				ps := Simple(t, kl, withIn(c.Simple, in), 0)
 				ps["name"] = name
 				ps["in"] = in
+				if c.FocusParams && k == 0 {
+					if mode == "form" && chance(t, kl+"_focus_form", 60) && in != "formData" {
+						// re-home the focus parameter into the form
+						in = "formData"
+						ps["in"] = in
+						if strings.HasPrefix(name, "X-") {
+							name = strings.TrimPrefix(name, "X-")
+							ps["name"] = name
+						}
+					}
+					if chance(t, kl+"_focus_plain", 50) {
+						ty := rapid.SampledFrom([]string{"string", "string", "integer", "number", "boolean", "array"}).Draw(t, kl+"_focus_type")
+						for kk := range ps {
+							if kk != "name" && kk != "in" {
+								delete(ps, kk)
+							}
+						}
+						ps["type"] = ty
+						if ty == "array" {
+							ps["items"] = J{"type": rapid.SampledFrom([]string{"string", "integer", "boolean"}).Draw(t, kl+"_focus_items")}
+						}
+					}
+					flags := rapid.SampledFrom([]string{"required", "optional", "required+aev", "optional+aev", "optional+default"}).Draw(t, kl+"_focus_flags")
+					delete(ps, "default")
+					if strings.HasPrefix(flags, "required") {
+						ps["required"] = true
+					}
+					if strings.HasSuffix(flags, "+aev") && (in == "query" || in == "formData") {
+						ps["allowEmptyValue"] = true
+					}
+					if strings.HasSuffix(flags, "+default") && ps["type"] != "file" {
+						if v, ok := ValidSimple(t, kl+"_focus_def", ps); ok {
+							ps["default"] = v
+						}
+					}
+					if chance(t, kl+"_hasdesc", 20) {
+						ps["description"] = c.text(t, kl+"_desc")
+					}
+					params = append(params, ps)
+					continue
+				}
 				if chance(t, kl+"_req", 35) {
 					ps["required"] = true
 					delete(ps, "default")
 				}
-				if (in == "query" || in == "formData") && chance(t, kl+"_aev", 10) {
+				aevPct := c.AllowEmptyPct
+				if aevPct == 0 {
+					aevPct = 10
+				}
+				if (in == "query" || in == "formData") && chance(t, kl+"_aev", aevPct) {
 					ps["allowEmptyValue"] = true
 				}
 				if chance(t, kl+"_hasdesc", 20) {
